@@ -1,11 +1,11 @@
 /-
 C04 — GROUP BY partitions each window's rows by the grouping key tuple.
-Property theorems only; helper lemmas live in `Proofs/GroupKey*.lean`, `Proofs/GroupAgg.lean`.
+Property theorems only; helper lemmas live in `Proofs/GroupKey*.lean`, `Proofs/GroupPartition.lean`.
 The encoders are the *repaired* ones (length prefix in the aggregator, separator escaping in the
 counting / session / global windows); the unrepaired code is reported by the check as a violation.
 -/
 import SsqlVerif.Proofs.GroupKeyTyped
-import SsqlVerif.Proofs.GroupAgg
+import SsqlVerif.Proofs.GroupPartition
 import SsqlVerif.Generated.Facts
 set_option autoImplicit false
 
@@ -72,8 +72,8 @@ that tuple and exactly the rows of that tuple. -/
 theorem group_partition_of_injective {κ σ ι : Type} [DecidableEq σ] [DecidableEq κ] [DecidableEq ι]
     (enc : κ → σ) (rows : List (κ × ι))
     (hinj : ∀ r ∈ rows, ∀ r' ∈ rows, enc r.1 = enc r'.1 → r.1 = r'.1) :
-    partitionHolds rows (GroupAgg.results enc rows) = true :=
-  GroupAgg.results_partition enc rows hinj
+    partitionHolds rows (GroupPart.results enc rows) = true :=
+  GroupPart.results_partition enc rows hinj
 
 /-- Instance for the aggregator with its real (repaired) encoder, over typed rows: every batch
 whose columns are typed as the property says is partitioned exactly by tuple. Rows carry the
@@ -81,8 +81,8 @@ normalised tuple (`Add` stores nil for a missing and for a nil column). -/
 theorem group_partition_aggregator {ι : Type} [DecidableEq ι] (rows : List (List Val × ι))
     (hN : ∀ r ∈ rows, normTuple r.1 = r.1)
     (hT : ∀ r ∈ rows, ∀ r' ∈ rows, sameTypeT r.1 r'.1 = true ∧ fltOkT r.1 r'.1) :
-    partitionHolds rows (GroupAgg.results encAggregator rows) = true :=
-  GroupAgg.results_partition encAggregator rows fun r hr r' hr' h => by
+    partitionHolds rows (GroupPart.results encAggregator rows) = true :=
+  GroupPart.results_partition encAggregator rows fun r hr r' hr' h => by
     have := encAggregator_injective r.1 r'.1 (hT r hr r' hr').1 (hT r hr r' hr').2 h
     rwa [hN r hr, hN r' hr'] at this
 
@@ -90,17 +90,17 @@ theorem group_partition_aggregator {ι : Type} [DecidableEq ι] (rows : List (Li
 theorem group_partition_window {ι : Type} [DecidableEq ι] (rows : List (List Val × ι))
     (hN : ∀ r ∈ rows, normTuple r.1 = r.1)
     (hT : ∀ r ∈ rows, ∀ r' ∈ rows, sameTypeT r.1 r'.1 = true ∧ fltOkT r.1 r'.1) :
-    partitionHolds rows (GroupAgg.results encCounting rows) = true ∧
-    partitionHolds rows (GroupAgg.results encSession rows) = true ∧
-    partitionHolds rows (GroupAgg.results encGlobal rows) = true := by
+    partitionHolds rows (GroupPart.results encCounting rows) = true ∧
+    partitionHolds rows (GroupPart.results encSession rows) = true ∧
+    partitionHolds rows (GroupPart.results encGlobal rows) = true := by
   refine ⟨?_, ?_, ?_⟩
-  · exact GroupAgg.results_partition encCounting rows fun r hr r' hr' h => by
+  · exact GroupPart.results_partition encCounting rows fun r hr r' hr' h => by
       have := encCounting_injective r.1 r'.1 (hT r hr r' hr').1 (hT r hr r' hr').2 h
       rwa [hN r hr, hN r' hr'] at this
-  · exact GroupAgg.results_partition encSession rows fun r hr r' hr' h => by
+  · exact GroupPart.results_partition encSession rows fun r hr r' hr' h => by
       have := encSession_injective r.1 r'.1 (hT r hr r' hr').1 (hT r hr r' hr').2 h
       rwa [hN r hr, hN r' hr'] at this
-  · exact GroupAgg.results_partition encGlobal rows fun r hr r' hr' h => by
+  · exact GroupPart.results_partition encGlobal rows fun r hr r' hr' h => by
       have := encGlobal_injective r.1 r'.1 (hT r hr r' hr').1 (hT r hr r' hr').2 h
       rwa [hN r hr, hN r' hr'] at this
 
@@ -114,9 +114,9 @@ example : encCounting [] = "__global__".toList ∧ encCounting [.str "us".toList
 example : encAgg [some ['x', Char.ofNat 0x1f, 'y'], some ['z']] ≠ encAgg [some ['x'], some ['y', Char.ofNat 0x1f, 'z']] := by decide
 example : encAgg [none] ≠ encAgg [some aggNull] := by decide
 example : sameTypeT [.str ['a'], .null] [.missing, .str []] = true := by decide
-example : partitionHolds [(1, 10), (2, 11), (1, 12)] (GroupAgg.results (fun n : Nat => n) [(1, 10), (2, 11), (1, 12)]) = true := by decide
+example : partitionHolds [(1, 10), (2, 11), (1, 12)] (GroupPart.results (fun n : Nat => n) [(1, 10), (2, 11), (1, 12)]) = true := by decide
 -- a colliding encoder breaks the partition (so the hypothesis of `group_partition_of_injective` is needed)
-example : partitionHolds [(1, 10), (2, 11)] (GroupAgg.results (fun _ : Nat => 0) [(1, 10), (2, 11)]) = false := by decide
+example : partitionHolds [(1, 10), (2, 11)] (GroupPart.results (fun _ : Nat => 0) [(1, 10), (2, 11)]) = false := by decide
 
 end C04
 
